@@ -25,7 +25,7 @@ KEY_FOFF_OOP = "regression/alter_frameoffset/decrease/out-of-place-encoding/copi
 KEY_STALESIZE = "regression/alter_raw/type-widened/same-handle-getdata/stale-sample-size/heap-overflow"
 KEY_LZMASEEK = "regression/alter_frameoffset/lzma/temporary-file-seek-takes-decoder-branch/GD_E_IO"
 KEY_FOFF0 = "regression/restructure+reopen/included-fragment-with-frameoffset-0-under-parent-with-nonzero-offset/directive-not-written"
-KEY_BIGFRAME = "alter_raw/recode/frame-larger-than-copy-buffer/data-file-emptied"
+KEY_BIGFRAME = "regression/alter_raw/recode/frame-larger-than-copy-buffer/data-file-emptied"
 KEY_SAMEHANDLE = "regression/alter_encoding/from-lzma-or-bzip2/same-handle-read/EBADF"
 GD_REN_DATA = 1
 
@@ -66,9 +66,13 @@ def values(rng, t, n, textual):
 def main():
     chk = vlib.Check(PID)
     rng = chk.rng
-    proved = chk.prove("Properties_C13")
+    # translator: how the copy loop of _GD_Change sizes its passes (Gen/ChangeLoop.v)
+    rc, tout = vlib.sh("python3 %s/translate/tr_changeloop.py" % vlib.VERIF)
+    trans_problems = [l for l in tout.splitlines() if l.startswith("PROBLEM")]
+    proved = chk.prove("Properties_C13", extra_targets=["Gen/ChangeLoop.vo"])
     chk.cov["trusted_base"] += [
         "Coq 8.16.1 kernel, vm_compute (no native_compute)",
+        "translator translate/tr_changeloop.py (reads nf = GD_BUFFER_SIZE / max(sizes) / max(spfs) and the nf == 0 statement of _GD_Change)",
         "buffer-level model of _GD_MogrifyFile and of the RAW branch of _GD_Change in coq/C13/Recode.v (codec classes from the encoding-table flags, "
         "proved equal to the regenerated table in Properties_C04.enc_table_flags_are_those_modelled); the codecs' own read/write are C02/C03/C04's subject",
         "type conversion values are C06's subject: RAW type changes are exercised between unsigned integer types (value mod 2^bits)",
@@ -481,6 +485,9 @@ def main():
                        "written, the dirfile reopened, read, restructured, read through the same handle and again after reopening; oracle = data unchanged after the "
                        "documented transform; model = extracted mogrify_values / retype_values.  non-trivial = distinct agreeing cases")
     chk.cov["input_distribution"] = dist
+    if trans_problems and not found_any:
+        chk.violation("translator", "translate/tr_changeloop.py cannot read the pass size of the copy loop of _GD_Change in src/mod.c: " + "; ".join(trans_problems[:3]),
+                      {"kind": "translator", "problems": trans_problems, "theorem": "spf_change_loop_matches_statement"}, found=False)
     if not proved and not found_any:
         chk.violation("proof", "Properties_C13 does not check: " + getattr(chk, "proof_log", "")[-1200:],
                       {"kind": "proof", "theorem": "Properties_C13", "log": getattr(chk, "proof_log", "")[-4000:]}, found=False)
